@@ -8,9 +8,16 @@ CONSTANTS
   LemmaN = 4
   LemmaL = 2
   LoopN = 5
+  ExtraLen = 4
+  HistRows = 3
+  Hist2Rows = 3
+  GHistN = 4
+  GHist2N = 4
 INVARIANT InvSeg
 INVARIANT InvIdx
 INVARIANT InvGraph
 INVARIANT InvLemma
 INVARIANT InvLoop
+INVARIANT InvHist
+INVARIANT InvGHist
 CHECK_DEADLOCK FALSE
